@@ -33,6 +33,7 @@ type genCfg struct {
 	partial    float64 // probability of a case shaped for partial (same-file) compactions
 	longHist   float64 // probability of a long uncompacted history (footer larger than a page)
 	getErrW    int     // reads that fail because the merge operator refuses
+	bgRefuseW  int     // the operator refuses the next merge of a background task
 	idle       float64 // probability that the idle merger is enabled
 	tinyDirty  float64
 	finalClose bool
@@ -126,6 +127,7 @@ func propCfg(prop string) genCfg {
 		base.kids = 0.2
 		base.reopen = 3
 		base.drainW = 8
+		base.bgRefuseW = 4
 	case "C09":
 		base.flags = []string{"finalVerify"}
 		base.iterW = 30
@@ -157,6 +159,7 @@ func propCfg(prop string) genCfg {
 		base.backings = []string{"mapll"}
 		base.flags = []string{"verifyEach", "storeEach", "finalVerify", "finalDrain"}
 		base.merges = 0.4
+		base.bgRefuseW = 4
 		base.faults = "llu"
 		base.tinyDirty = 0.4
 		base.drainW = 8
@@ -169,6 +172,7 @@ func propCfg(prop string) genCfg {
 		base.partial = 0.15
 		base.merges = 0.3
 		base.getErrW = 4
+		base.bgRefuseW = 4
 		base.concerns = []int{0, 1, 2, 2}
 		base.reopen = 2
 		base.idle = 0.4
@@ -611,6 +615,9 @@ func genSingle(c *Case, r *simrt.Rand, cfg genCfg) {
 	if g.merges && c.Opts.Backing != "mapll" {
 		ws = append(ws, w{"getErr", cfg.getErrW})
 	}
+	if g.merges && c.Opts.Backing != "mem" {
+		ws = append(ws, w{"bgRefuse", cfg.bgRefuseW})
+	}
 	tot := 0
 	for _, x := range ws {
 		tot += x.w
@@ -681,6 +688,8 @@ func genSingle(c *Case, r *simrt.Rand, cfg genCfg) {
 			default:
 				c.Prog = append(c.Prog, Op{Kind: "snapClose", N: r.Intn(nsnap)})
 			}
+		case "bgRefuse":
+			c.Prog = append(c.Prog, Op{Kind: "bgRefuse", N: r.Intn(2)})
 		case "getErr":
 			g.seq++
 			k := pick(r, g.pool)
